@@ -210,9 +210,20 @@ fn walk(v: &CV, texts: &[String], path: &mut Vec<Seg>, out: &mut Vec<Point>, dep
         }
         CV::Text(s) => {
             let mut cands: Vec<String> = vec![String::new(), "zz-none".into()];
+            // identifiers (statement ids, labels: short texts ending in a digit or used as references) are
+            // retargeted to EVERY other identifier of the world; other texts to a rotating handful
+            let is_id = |t: &String| t.len() <= 12 && t.chars().last().map(|c| c.is_ascii_digit()).unwrap_or(false);
+            if is_id(s) {
+                for t in texts.iter().filter(|t| is_id(t)) {
+                    if t != s && cands.len() < 40 {
+                        cands.push(t.clone());
+                    }
+                }
+            }
             let start = out.len() % texts.len().max(1);
+            let cap = cands.len() + 6;
             for t in texts.iter().cycle().skip(start).take(texts.len()) {
-                if t != s && cands.len() < 8 {
+                if t != s && cands.len() < cap && !cands.contains(t) {
                     cands.push(t.clone());
                 }
             }
